@@ -8,7 +8,7 @@ FmtSel = {1, 2}
 RndSel = {1}
 OvfSel = {1}
 GridSel = {1, 2, 4, 6}
-Acts <- ActsC04
+Acts <- ActsC04q
 Depth = 3
 EXT = 4
 INIT Init
